@@ -561,6 +561,7 @@ func moveRec(name string, in *tarFile, out *tarFile, picked map[string]struct{})
 	picked[name] = struct{}{}
 	if e.header.Typeflag == tar.TypeLink {
 		if err := moveRec(e.header.Linkname, in, out, picked); err != nil {
+			delete(picked, name) // not moved; keep it among the remaining entries
 			return err
 		}
 	}
